@@ -267,11 +267,14 @@ func RunCase(c *Case) error {
 	if err != nil {
 		return err
 	}
-	if d := e.diffOutside(false); len(d) > 0 {
-		// left over from a failed case
-		if err := e.rebuildJail(); err != nil {
-			return err
+	if e.dirty {
+		// left over from a case that ended in a violation or lost its child
+		if d := e.diffOutside(false); len(d) > 0 {
+			if err := e.rebuildJail(); err != nil {
+				return err
+			}
 		}
+		e.dirty = false
 	}
 	if err := e.resetExport(c.Tree); err != nil {
 		return err
@@ -305,6 +308,7 @@ func RunCase(c *Case) error {
 	if ra.Qid.Path != e.snap.rootIno {
 		return s.finish(s.viol("Tattach aname=\"\" -> qid.path %d, but the exported root has inode %d", ra.Qid.Path, e.snap.rootIno))
 	}
+	e.dirty = true
 	for i := range c.Probes {
 		p := &c.Probes[i]
 		s.cur, s.curVec = i, p.Vec
@@ -319,9 +323,10 @@ func RunCase(c *Case) error {
 			return s.finish(err)
 		}
 		if s.rootRemoved {
-			break
+			return nil // stays dirty: the root has to be rebuilt
 		}
 	}
+	e.dirty = false // the last probe's comparison found the outside untouched
 	return nil
 }
 
